@@ -32,7 +32,7 @@ def make_device(kind, variant):
     different decoders."""
     eq = kind.endswith('=eq')
     lossy = '+lossy' in kind
-    kind = kind.split('=')[0].replace('+ka', '').replace('+loops', '').replace('+r1', '').replace('+lossy', '')
+    kind = kind.split('=')[0].replace('+ka', '').replace('+loops', '').replace('+r1', '').replace('+lossy', '').replace('+mute', '')
     if kind.startswith('ET'):
         d = ModbusDevice(0xF7, fill=(lambda a: 4) if eq else (lambda a: (a * 31 + 7) % 5000) if variant == 0 else (lambda a: (a * 17 + 1234) % 7000))
         et_device_info(d, serial=b'9010KETT000W0000' if kind == 'ET745' else b'9010KETU000W0000', rated=10000)
@@ -207,15 +207,21 @@ def run_pair(kinds, seqs, ctx, solo=None, transport='udp'):
                 v = await do_op(invs[i], fams[i], op)
                 results[i].append([op, 'ok', snap(v), v])
             except BaseException as e:  # noqa: BLE001
-                results[i].append([op, 'exc', (type(e).__name__, str(getattr(e, 'message', '') or e)[:60]), None])
+                results[i].append([op, 'exc', (type(e).__name__, str(getattr(e, 'message', '') or e)[:60], getattr(e, 'consecutive_failures_count', None)), None])
 
     async def setup():
         for i in (0, 1):
             if solo is None or solo == i:      # alone means alone: the other object does not even identify itself
                 await invs[i].read_device_info()
 
+    def mute():
+        for i, k in enumerate(kinds):
+            if '+mute' in k:
+                devs[i].silent = True        # answers while the object identifies itself, then goes silent for good
+
     async def main():
         await setup()
+        mute()
         for d in devs:
             d.sent.clear()
             d.log.clear()
@@ -227,10 +233,11 @@ def run_pair(kinds, seqs, ctx, solo=None, transport='udp'):
             v = await do_op(invs[i], fams[i], op)
             results[i].append([op, 'ok', snap(v), v])
         except BaseException as e:  # noqa: BLE001
-            results[i].append([op, 'exc', (type(e).__name__, str(getattr(e, 'message', '') or e)[:60]), None])
+            results[i].append([op, 'exc', (type(e).__name__, str(getattr(e, 'message', '') or e)[:60], getattr(e, 'consecutive_failures_count', None)), None])
     kern.tx_cap = 4000
     if per_loop:
         st, res = loop.run(setup())
+        mute()
         for d in devs:
             d.sent.clear()
             d.log.clear()
@@ -321,6 +328,8 @@ PAIRS = [('ET', 'ET'), ('ET745', 'ET'), ('ETbad', 'ET745'), ('ETnobat', 'ET'), (
          ('ET=eq', 'DT=eq'), ('DT=eq', 'ET=eq'), ('ET=eq', 'ES=eq'), ('ES=eq', 'DT=eq'), ('ET=eq', 'ET745=eq')]
 # long-lived objects used from successive event loops (keep-alive on / off): two-step sequences, one loop per step
 PAIRS += [('ES+lossy+r1', 'ES+lossy+r1'), ('ES+lossy+r1', 'ESv2+r1'), ('ETunset', 'ET745'), ('ET745', 'ETunset'), ('ETunset55', 'ET745'), ('ETunset', 'ETv1'), ('DTnometer', 'DT'), ('DT', 'DTnometer'), ('DTnometer', 'DTnometer')]
+# an inverter that stops answering: its object's failures (and the failure count they carry) are its own
+MUTE_PAIRS = [('ET+mute+r1', 'ET+mute+r1'), ('ET+mute', 'DT'), ('DT', 'ES+mute'), ('ES+mute', 'ES+mute+r1'), ('DT+mute', 'ET')]
 LOOP_PAIRS = [('ET+ka+loops', 'DT+ka+loops'), ('ET+ka+loops', 'ET+loops'), ('DT+ka+loops', 'ES+ka+loops'), ('ET+ka+loops', 'ETtcp+ka+loops')]
 
 
@@ -344,6 +353,11 @@ def run(tier, seed, rep):
     for a in OPS:
         for b in ('read_runtime_data', 'write_scalar', 'set_eco_charge'):
             jobs.append((('ET', 'ET'), ((a,), (b,)), 2, 'tcp'))
+    for kinds in MUTE_PAIRS:
+        for a in ('read_runtime_data', 'read_scalar', 'write_scalar'):
+            for b in ('read_runtime_data', 'read_scalar'):
+                jobs.append((kinds, ((a, b), (b, a)), 1, 'udp'))
+                jobs.append((kinds, ((a, b, a), (b,)), 1, 'udp'))
     for kinds in LOOP_PAIRS:
         for a in ('read_runtime_data', 'read_scalar', 'write_scalar'):
             for b in ('read_runtime_data', 'read_scalar'):
